@@ -1,4 +1,5 @@
 CONSTANT EchoCheck = TRUE
+CONSTANT ParamsOfLast = FALSE
 INIT Init
 NEXT Next
-INVARIANTS Completeness FailClosed CamGated Agreement StatusFails SelectInv Emit
+INVARIANTS Completeness FailClosed CamGated Agreement StatusFails SelectInv CoupledInv Emit
